@@ -277,11 +277,15 @@ impl<T> Handle<T> {
             kind: ErrorKind::CollectorGone,
         })?;
 
+        #[cfg(tokio_rs_tracing_verif)]
+        tracing_core::verif::point("reload.modify.before_write");
         let mut lock = try_lock!(inner.write(), else return Err(Error::poisoned()));
         f(&mut *lock);
         // Release the lock before rebuilding the interest cache, as that
         // function will lock the new subscriber.
         drop(lock);
+        #[cfg(tokio_rs_tracing_verif)]
+        tracing_core::verif::point("reload.modify.before_rebuild");
 
         callsite::rebuild_interest_cache();
 
